@@ -102,8 +102,8 @@ def shard(acc, tier, idx, n):
 
         seen = set()
         for alphabet, depth in ((SIGMA, d_full), (CORE, d_core)):
-            if alphabet is CORE and ci != 0 and q:
-                continue
+            if alphabet is CORE and ci != 0:
+                continue            # the deepest level only under the first configuration
             for h in histories(alphabet, depth, idx, n, prefix_ok=ok):
                 if alphabet is CORE and len(h) <= d_full:
                     continue        # already executed by the full-alphabet pass
